@@ -59,12 +59,15 @@ CHECKS = {
         note="bounded value/argument sets listed in spec/MC_PyOps.tla; dict order not modelled; " + FAKES,
         design="5/C03"),
     "C04": dict(
-        technique="TLC BFS/simulation of spec/Contract.tla (2 objects + child handles on one resource) replayed on all classes",
+        technique=("TLC BFS/simulation of spec/Contract.tla (2 objects + child handles on one resource) replayed on all classes; "
+                   "TLC BFS of spec/Sync.tla (mechanism on object identities, statements as action properties on every edge) "
+                   "with sampled behaviours replayed comparing results, resource, in-memory images and identities"),
         category="model_checking",
         text=("Same generator as C02; after every mutator issued through any handle the raw resource must equal "
               "the model document, i.e. the operation applied at the handle's path to the CURRENT document, so "
-              "changes made through other handles survive."),
-        note="bounds of spec/MC_Contract.tla; " + FAKES, design="5/C04"),
+              "changes made through other handles survive. Sync.tla states the same on the mechanism (load, in-place "
+              "merge, mutate the node object, save the root; orphans) and is conformance-checked step by step."),
+        note="bounds of spec/MC_Contract.tla and spec/MC_Sync.tla; " + FAKES, design="5/C04"),
     "C05": dict(technique="TLC-generated inputs (BufContract.tla) executed on buffered classes; recorded traces validated by TLC (TraceBuf.tla)",
                 category="model_checking", text=BUF + ". C05: one object per file; claimed clauses: returned values, file contents, file rewrites, exceptions.",
                 note=BUFNOTE, design="5/C05"),
